@@ -32,6 +32,7 @@ type Violation struct {
 
 // Run is the state of one check run (parent or worker).
 type Run struct {
+	replaySig, replayFile string
 	ID     string
 	Tier   string
 	Seed   int64
@@ -382,6 +383,15 @@ type Coverage struct {
 
 // Finish writes the evidence, prints KNOWN-FINDING / VIOLATION lines and exits.
 func (r *Run) Finish(c Coverage) {
+	if r.replaySig != "" {
+		if v, ok := r.viol[r.replaySig]; ok {
+			d, _ := json.MarshalIndent(v.Detail, "  ", " ")
+			fmt.Printf("VIOLATION property=%s replay=%s\n  signature: %s  (occurrences in this run: %d)\n  %s\n", r.ID, r.replayFile, r.replaySig, r.violCount[r.replaySig], d)
+			os.Exit(1)
+		}
+		fmt.Printf("replay: signature %s did not occur in this %s exploration (%d executions)\n", r.replaySig, r.Tier, c.Traces)
+		os.Exit(0)
+	}
 	known := r.loadFindings()
 	sigs := make([]string, 0, len(r.viol))
 	for s := range r.viol {
@@ -495,6 +505,26 @@ func (r *Run) writeReplay(v *Violation) string {
 	}, "", " ")
 	os.WriteFile(path, append(data, '\n'), 0o644)
 	return path
+}
+
+// ReplayBySearch is the replay of harnesses without a dedicated replayer: the
+// normal exploration of the tier runs again and only the signature recorded in
+// the replay file is looked for (exit 1 with a VIOLATION line if it occurs again,
+// exit 0 otherwise). No evidence is written and no replay file is touched.
+func (r *Run) ReplayBySearch() {
+	data, err := os.ReadFile(r.Replay)
+	if err != nil {
+		r.Fault("replay: %v", err)
+	}
+	var f struct {
+		Sig string `json:"signature"`
+	}
+	if err := json.Unmarshal(data, &f); err != nil || f.Sig == "" {
+		r.Fault("replay: no signature in %s", r.Replay)
+	}
+	r.replaySig = f.Sig
+	r.replayFile = r.Replay
+	r.Replay = ""
 }
 
 // LoadReplay reads the detail of a replay file into v.
